@@ -747,12 +747,14 @@ func pow(args []object.Object) object.Object {
 }
 
 func sprintf(args []object.Object) object.Object {
+	object.MustFitExpanded(args[1:]...) // formatting happens in one go, outside of the evaluator and its checks.
 	res := fmt.Sprintf(args[0].(object.String).Value, object.Unwrap(args[1:], false)...)
 	return object.String{Value: res}
 }
 
 func jsonSer(env any, _ string, args []object.Object) object.Object {
 	s := env.(*eval.State)
+	object.MustFitExpanded(args[0])
 	w := strings.Builder{}
 	err := args[0].JSON(&w)
 	if err != nil {
@@ -763,6 +765,7 @@ func jsonSer(env any, _ string, args []object.Object) object.Object {
 
 func jsonSerGo(env any, _ string, args []object.Object) object.Object {
 	s := env.(*eval.State)
+	object.MustFitExpanded(args[0])
 	v := args[0].Unwrap(true)
 	var err error
 	var buf bytes.Buffer
